@@ -25,7 +25,7 @@ INFO = dict(
               'flight. Oracle: every in-flight request received exactly one message; after a fault the transport reports Closed and its '
               'on_faulted signal fired; and whenever at the horizon the transport reports Open with nothing in flight, a fresh probe request '
               'actually reaches the peer.',
-  bounds={'quick': 'serial: 1 request, 1 fault; mux: <= 2 requests in flight, 1 fault', 'thorough': 'mux: <= 3 requests in flight; two consecutive serial requests'},
+  bounds={'quick': 'serial: 1 request, 1 fault (connect refused, I/O error at a symbolic op, EOF at a symbolic instant, silence + reconnect ok/refused, time-out during a partially delivered blocked write), request issued while Open() is pending; mux: <= 2 requests in flight, 1 fault, unanswered ping, request during a pending open that succeeds / is refused / is never acknowledged', 'thorough': 'as quick with mux <= 3 requests in flight'},
   outside=['more than one fault per connection', 'send() returning fewer bytes than asked (a write that delivers part of the frame and then blocks IS covered)'],
   stubs=['fake TCP layer + scripted peers (3.9, 3.10)', 'virtual loop, timer/EMA math stubs, random for the ping interval (symbolic)'],
   assumptions=['A1-A4'],
